@@ -131,7 +131,9 @@ def attr_root(fn, e, depth=0):
     return None
 
 
-def r16_1(rep, M, rid):
+def r16_1(rep, M, rid, region=False):
+    """region=True: only what the region search of the periodic finder consumes (who is matched, and the cell offset of a *match*); the
+    offsets of substitutions / vacancies and the description of a substitution are not read there"""
     fn = M.func(GM)
     L_MATCH, L_SUB, L_VAC, L_COPY = (ret_names(fn) + [None] * 4)[:4]
     V_MATCH, V_SUB = appended_var(fn, L_MATCH), appended_var(fn, L_SUB)
@@ -209,6 +211,9 @@ def r16_1(rep, M, rid):
                           "tolerance and same species, substitution iff within tolerance and other species, vacancy otherwise)", M.where(GM, loop))
             continue
         # copy index provenance
+        if region and want != "match":
+            rep.ok(rid, f"get_matches path [{desc}] -> {want}")
+            continue
         src = ci[-1][3] or ci[-1][2] if ci else None
         if not ci:
             rep.violation(rid, f"get_matches path [{desc}] copy index", "no copy index stored for this position", M.where(GM, loop))
@@ -244,6 +249,8 @@ def r16_1(rep, M, rid):
                 rep.ok(rid, "get_matches: the reported cell offset is that of the nearest image")
             else:
                 rep.violation(rid, "get_matches: cell offset", "the offset is not read at the index of the nearest image", M.where(GM))
+    if region:
+        return
     # content of a reported substitution: which species was searched, which was found
     ps = M.params(GM)
     p_system, p_numbers = ps[0], ps[3]
@@ -309,7 +316,7 @@ def r16_1(rep, M, rid):
                               f"(read from `{need}`): the defect is described backwards", M.where(GM, c))
 
 
-def guards_of_match(M, fq):
+def guards_of_match(M, fq, operator_class=True):
     fn = M.func(fq)
     fl = Flow(fn)
     mv = appended_var(fn, ret_names(fn)[0])
@@ -321,14 +328,15 @@ def guards_of_match(M, fq):
     tol = M.params(fq)[4]
     loop = next(lp for lp in fn.body if isinstance(lp, ast.For))
     num = [x.id for x in ast.walk(loop.target) if isinstance(x, ast.Name)][-1]
-    kinds = sorted(((classify_cond(t.test, tol, num) or norm(t.test)) + (":" + type(t.test.ops[0]).__name__ if isinstance(t.test, ast.Compare) else ""), pol)
+    kinds = sorted(((classify_cond(t.test, tol, num) or norm(t.test)) + (":" + type(t.test.ops[0]).__name__ if isinstance(t.test, ast.Compare) and operator_class else ""), pol)
                    for t, pol in conds if isinstance(t, ast.If))
     return kinds, attr_root(fn, st[0].value)
 
 
-def r16_2(rep, M, rid):
-    ga, va = guards_of_match(M, GM)
-    gb, vb = guards_of_match(M, GMS)
+def r16_2(rep, M, rid, region=False):
+    """region=True: `<` against `<=` on the tolerance differs on a set of measure zero and is not compared"""
+    ga, va = guards_of_match(M, GM, operator_class=not region)
+    gb, vb = guards_of_match(M, GMS, operator_class=not region)
     if ga == gb and va == vb:
         rep.ok(rid, f"get_matches and get_matches_simple accept a match under the same conditions {[g for g, _ in ga]}")
     else:
